@@ -215,6 +215,9 @@ def CANDIDATES(func: str):
     if func == "shadowing_class_names":
         yield from _cand_shadow()
         return
+    if func == "attribute_annotations":
+        yield from _cand_attr()
+        return
 
     dec = {
         "defaults": lambda s: (rd(s, c := Cur(), 2), expr(s, c, 2)),
@@ -253,3 +256,148 @@ def shadowing_class_names(sel: List[int]) -> bool:
 def _cand_shadow():
     for i in range(len(SHADOW)):
         yield [[i] + [0] * 13]
+
+
+ATTR_FORMS = ["plain", "Final[int]", "Final", "Final[int, str]", "list[int]", "list[int, str]", "set[int, str]", "list"]
+
+
+def attribute_annotations(sel: List[int]) -> bool:
+    """Class attributes and constructor-assigned attributes annotated with Final (with, without and with several
+    arguments), list/set with several arguments, and a bare list: attribute creation never raises.
+
+    pre: len(sel) == SEL_LEN and fixed(sel)
+    post: _
+    """
+    try:
+        cur = Cur()
+        form = ATTR_FORMS[rd(sel, cur, len(ATTR_FORMS))]
+        in_init = rd(sel, cur, 2) == 1
+    except OutOfRange:
+        return True
+    shim.install()
+    tree = _attr_tree_of(form, in_init)
+    import safeds_stubgen.api_analyzer._ast_visitor as V
+    import safeds_stubgen.api_analyzer._ast_walker as W
+    from safeds_stubgen.api_analyzer import API, TypeSourcePreference, TypeSourceWarning
+    from safeds_stubgen.docstring_parsing import PlaintextDocstringParser
+
+    api = API("", "pkg", "")
+    vis = V.MyPyAstVisitor(PlaintextDocstringParser(), api, {}, TypeSourcePreference.CODE, TypeSourceWarning.IGNORE)
+    W.ASTWalker(vis).walk(tree)  # any exception escaping repository code is a counterexample
+    note("oracle")
+    return len(api.attributes_) == 1
+
+
+def _attr_tree_of(form, in_init):
+    i, s = shim.instance("builtins.int"), shim.instance("builtins.str")
+    err = shim.any_type(shim.TypeOfAny.from_error)
+    ty, un = {
+        "plain": (i, shim.unbound("int")),
+        "Final[int]": (i, shim.unbound("Final", [shim.unbound("int")])),
+        "Final": (s, shim.unbound("Final", [])),
+        "Final[int, str]": (err, shim.unbound("Final", [shim.unbound("int"), shim.unbound("str")])),
+        "list[int]": (shim.instance("builtins.list", [i]), shim.unbound("list", [shim.unbound("int")])),
+        "list[int, str]": (shim.instance("builtins.list", [err]), shim.unbound("list", [shim.unbound("int"), shim.unbound("str")])),
+        "set[int, str]": (shim.instance("builtins.set", [err]), shim.unbound("set", [shim.unbound("int"), shim.unbound("str")])),
+        "list": (shim.instance("builtins.list", [shim.any_type(shim.TypeOfAny.from_omitted_generics)]), shim.unbound("list", [])),
+    }[form]
+    var = shim.var("a", ty, fullname="pkg.m.K.a")
+    if in_init:
+        stmt = shim.assignment([shim.member_expr("a", shim.name_expr("self", "self"), node=var)], unanalyzed_type=un)
+        init = shim.func_def("__init__", "pkg.m.K.__init__", [shim.argument("self", shim.ArgKind.ARG_POS, is_self=True)],
+                             ret=shim.none_type(), body=[stmt])
+        body = [init]
+    else:
+        body = [shim.assignment([shim.name_expr("a", "a", node=var)], unanalyzed_type=un)]
+    tree = shim.mypy_file("pkg.m", "pkg/m.py", defs=[shim.class_def("K", "pkg.m.K", body)])
+    return tree
+
+
+def _attr_tree(sel):
+    cur = Cur()
+    form = ATTR_FORMS[rd(sel, cur, len(ATTR_FORMS))]
+    in_init = rd(sel, cur, 2) == 1
+    return _attr_tree_of(form, in_init)
+
+
+def _cand_attr():
+    for a in range(len(ATTR_FORMS)):
+        for b in range(2):
+            yield [[a, b] + [0] * 12]
+
+
+def attribute_conformance() -> dict:
+    """The attribute forms above, rendered to Python and parsed by the real mypy: real nodes vs. shim conversion must
+    give the same API (the builder-made nodes are compared attribute by attribute on type and flags)."""
+    import json
+    import shutil
+
+    import safeds_stubgen.api_analyzer._ast_visitor as V
+    import safeds_stubgen.api_analyzer._ast_walker as W
+    from safeds_stubgen.api_analyzer import API, TypeSourcePreference, TypeSourceWarning
+    from safeds_stubgen.docstring_parsing import PlaintextDocstringParser
+    from vlib import shim_conformance as SC
+
+    src_of = {"plain": "int = 1", "Final[int]": "Final[int] = 1", "Final": 'Final = "x"', "Final[int, str]": None,
+              "list[int]": "list[int] = []", "list[int, str]": "list[int, str] = []", "set[int, str]": "set[int, str] = set()",
+              "list": "list = []"}
+    lines = ["from typing import Final", "", ""]
+    want = {}
+    for k, form in enumerate(ATTR_FORMS):
+        if src_of[form] is None:
+            continue
+        lines += [f"class K{k}:", f"    a: {src_of[form]}", "", f"    def __init__(self) -> None:", f"        self.b: {src_of[form]}", ""]
+    root = SC.write_package({"pkg/__init__.py": "", "pkg/m.py": "\n".join(lines) + "\n"})
+    try:
+        real, _ = SC.real_trees(root)
+        real = [t for t in real if not t.path.endswith("__init__.py")]
+        d_real, e_real = SC.run_visitor(real)
+        shim.install()
+        try:
+            d_conv, e_conv = SC.run_visitor([shim.Converter().conv(t) for t in real])
+        finally:
+            shim.uninstall()
+    finally:
+        shutil.rmtree(root, ignore_errors=True)
+    real_types = {a["id"]: a["type"] for a in d_real["attributes"]}
+    built_types = {}
+    shim.install()
+    for k, form in enumerate(ATTR_FORMS):
+        if src_of[form] is None:
+            continue
+        for in_init, nm in ((0, "a"), (1, "b")):
+            # rebuild what the harness builds and read the attribute type
+            sel = [k, in_init] + [0] * 12
+            api = _attr_api(sel)
+            built_types[f"pkg/m/K{k}/{nm}"] = next(iter(api.attributes_.values())).to_dict()["type"]
+    shim.uninstall()
+    diffs = [(i, real_types.get(i), built_types.get(i)) for i in sorted(built_types) if real_types.get(i) != built_types.get(i)]
+    return {"attributes": len(built_types), "real_vs_converted": json.dumps(d_real, sort_keys=True, default=str) == json.dumps(d_conv, sort_keys=True, default=str),
+            "real_vs_builder": not diffs, "errors": e_real + e_conv, "first_differences": diffs[:4]}
+
+
+def _attr_api(sel):
+    import safeds_stubgen.api_analyzer._ast_visitor as V
+    import safeds_stubgen.api_analyzer._ast_walker as W
+    from safeds_stubgen.api_analyzer import API, TypeSourcePreference, TypeSourceWarning
+    from safeds_stubgen.docstring_parsing import PlaintextDocstringParser
+
+    tree = _attr_tree(sel)
+    api = API("", "pkg", "")
+    vis = V.MyPyAstVisitor(PlaintextDocstringParser(), api, {}, TypeSourcePreference.CODE, TypeSourceWarning.IGNORE)
+    W.ASTWalker(vis).walk(tree)
+    return api
+
+
+def attribute_conformance_job() -> dict:
+    import logging
+    import time
+
+    logging.disable(logging.CRITICAL)
+    t = time.time()
+    r = attribute_conformance()
+    ok = r["real_vs_converted"] and r["real_vs_builder"] and not r["errors"]
+    return {"queries": [{"id": "attribute_forms_conformance", "verdict": "holds" if ok else "harness_error", "seconds": round(time.time() - t, 1),
+                         "bound": f"{r['attributes']} attribute declarations (Final / list / set forms, class and constructor) parsed by the real mypy",
+                         "detail": "" if ok else str(r)[:1200]}],
+            "validation": {"samples": r["attributes"], "mismatches": 0 if ok else 1, "details": []}}
